@@ -83,6 +83,11 @@ def strategy(tier, config):
         if draw(st.integers(0, 3)) == 0:
             closed = draw(st.booleans())
             specs = draw(gen.chain_specs(min_size=2, max_size=5, closed=closed, scale=draw(st.sampled_from([1e-2, 1.0, 1.0, 1e2, 1e4]))))
+            if draw(st.integers(0, 5)) == 0:
+                # a closed path made of a single looping segment (start == end)
+                b = draw(gen.bezier_spec(deg_strategy=st.sampled_from([2, 3]), classes=['generic']))['spec']
+                b[-1] = list(b[1])
+                specs = [b]
             target = {'what': 'path', 'segs': specs}
         elif draw(st.integers(0, 2)) == 0:
             a = draw(gen.arc_center_form(max_ecc=30))
